@@ -8,22 +8,25 @@ import (
 
 // Profile biases configuration and operation generation towards what a property needs.
 type Profile struct {
-	Prop        string
-	ForceBound  string // "", none, size, weight
-	ForceExp    bool
-	NoExp       bool
-	ForceRef    bool
-	NoRef       bool
-	Executor    []string
-	Stats       bool
-	ExtremeClk  bool // C12: clock origins / durations near MaxInt64
-	BigTTL      bool // C13: TTLs from ns to years
-	OpW         map[string]int
-	MinOps      int
-	MaxOps      int
-	Keys        [2]int
-	NoPanic     bool
-	NoCustomExp bool // only the built-in expiry policies (reads never shorten a deadline)
+	Prop         string
+	ForceBound   string // "", none, size, weight
+	ForceExp     bool
+	NoExp        bool
+	ForceRef     bool
+	NoRef        bool
+	Executor     []string
+	Stats        bool
+	ExtremeClk   bool // C12: clock origins / durations near MaxInt64
+	BigTTL       bool // C13: TTLs from ns to years
+	OpW          map[string]int
+	MinOps       int
+	MaxOps       int
+	Keys         [2]int
+	NoPanic      bool
+	ReadBursts   bool // generate runs of 17-40 reads (overflowing a 16-slot read buffer stripe)
+	WheelBias    bool // custom expiry: short creation TTLs (wheel level 0/1), reads extending to a coarser level
+	SmallReadBuf bool // one read-buffer stripe (16 slots): read events get dropped
+	NoCustomExp  bool // only the built-in expiry policies (reads never shorten a deadline)
 }
 
 func logUniform(r *simrt.Rng, lo, hi int64) int64 {
@@ -44,6 +47,19 @@ func logUniform(r *simrt.Rng, lo, hi int64) int64 {
 var wheelSpans = []int64{1 << 30, 1 << 36, 1 << 42, 1 << 47, 1 << 49}
 
 func genDuration(r *simrt.Rng, p *Profile) int64 {
+	if p.BigTTL && r.Intn(2) == 0 {
+		// a TTL inside one timer-wheel level (level 0: 1..64 ticks of 2^30 ns, level 1: up to 2^42, ...)
+		lv := r.Intn(5)
+		lo := int64(1) << 30
+		if lv > 0 {
+			lo = wheelSpans[lv]
+		}
+		hi := int64(1) << 51
+		if lv < 4 {
+			hi = wheelSpans[lv+1]
+		}
+		return logUniform(r, lo, hi)
+	}
 	switch r.Intn(10) {
 	case 0:
 		s := wheelSpans[r.Intn(len(wheelSpans))]
@@ -113,7 +129,21 @@ func GenCfg(r *simrt.Rng, p *Profile) Cfg {
 	c.Expiry = exp
 	if exp != "none" {
 		c.ExpD = genDuration(r, p)
-		if exp == "custom" {
+		if exp == "custom" && p.WheelBias && r.Intn(2) == 0 {
+			lv := func(l int) int64 {
+				lo := int64(1) << 30
+				if l > 0 {
+					lo = wheelSpans[l]
+				}
+				return logUniform(r, lo, wheelSpans[l+1])
+			}
+			c.ExpTbl[0] = []int64{lv(r.Intn(2))}
+			c.ExpTbl[1] = []int64{0}
+			c.ExpTbl[2] = []int64{lv(1 + r.Intn(3))}
+			if r.Intn(3) == 0 {
+				c.ExpTbl[2] = append(c.ExpTbl[2], 0)
+			}
+		} else if exp == "custom" {
 			for t := 0; t < 3; t++ {
 				n := 1 + r.Intn(3)
 				for i := 0; i < n; i++ {
@@ -155,6 +185,9 @@ func GenCfg(r *simrt.Rng, p *Profile) Cfg {
 	c.Stats = p.Stats || r.Intn(2) == 0
 	c.WriteBufMax = []uint32{4, 4, 8, 16, 128, 1024}[r.Intn(6)]
 	c.StripedMax = []int{1, 1, 2, 4, 16}[r.Intn(5)]
+	if p.SmallReadBuf {
+		c.StripedMax = 1
+	}
 	c.Parallelism = []int{1, 2, 4, 8, 16}[r.Intn(5)]
 	if r.Intn(4) == 0 {
 		c.HashMode = 1
@@ -183,17 +216,18 @@ var defaultOpW = map[string]int{
 	"invalidate": 5, "invalidateall": 1, "setexpires": 3, "setrefreshable": 2,
 	"load": 6, "bulkget": 4, "refresh": 2, "bulkrefresh": 2,
 	"all": 1, "keys": 1, "values": 1, "hottest": 1, "coldest": 1,
-	"setmax": 1, "getmax": 1, "wsize": 1, "esize": 2, "cleanup": 4, "stats": 1, "advance": 12,
+	"setmax": 1, "getmax": 1, "wsize": 1, "esize": 2, "cleanup": 4, "stats": 1, "advance": 12, "runexec": 0,
 }
 
 var opKinds = []string{
 	"set", "setifabsent", "get", "getentry", "getquiet", "compute", "computeifabsent", "computeifpresent",
 	"invalidate", "invalidateall", "setexpires", "setrefreshable", "load", "bulkget", "refresh", "bulkrefresh",
-	"all", "keys", "values", "hottest", "coldest", "setmax", "getmax", "wsize", "esize", "cleanup", "stats", "advance",
+	"all", "keys", "values", "hottest", "coldest", "setmax", "getmax", "wsize", "esize", "cleanup", "stats", "advance", "runexec",
 }
 
 // OpGen generates operations online, looking at the model to steer keys into interesting states.
 type OpGen struct {
+	queued []Op
 	R      *simrt.Rng
 	Cfg    *Cfg
 	P      *Profile
@@ -286,8 +320,25 @@ func (g *OpGen) pickKey(m *Model) int {
 func (g *OpGen) Next(m *Model) Op {
 	r := g.R
 	cfg := g.Cfg
+	if len(g.queued) > 0 {
+		op := g.queued[0]
+		g.queued = g.queued[1:]
+		return op
+	}
 	kind := opKinds[r.Weighted(g.ws)]
 	op := Op{Kind: kind}
+	if g.P.ReadBursts && kind == "get" && r.Intn(8) == 0 {
+		n := 17 + r.Intn(24)
+		k := r.Intn(cfg.Keys)
+		for i := 0; i < n; i++ {
+			if r.Intn(4) == 0 {
+				k = r.Intn(cfg.Keys)
+			}
+			g.queued = append(g.queued, Op{Kind: "get", K: k})
+		}
+		// ... followed by a read of (probably) another key whose event is then dropped
+		g.queued = append(g.queued, Op{Kind: "get", K: r.Intn(cfg.Keys)})
+	}
 	switch kind {
 	case "set", "setifabsent":
 		op.K, op.V = g.pickKey(m), g.newVal()
@@ -344,6 +395,11 @@ func (g *OpGen) Next(m *Model) Op {
 		}
 	case "advance":
 		op.D = g.genAdvance(m)
+	case "runexec":
+		op.D = int64(r.Intn(4)) - 1 // -1: run everything that is queued
+		if op.D == 0 {
+			op.D = 1
+		}
 	}
 	return op
 }
@@ -371,6 +427,9 @@ func (g *OpGen) genAdvance(m *Model) int64 {
 				return d
 			}
 		}
+	}
+	if g.P.BigTTL && r.Intn(3) == 0 {
+		return int64(1+r.Intn(70)) << 30 // a few wheel ticks: less than one revolution of level 0
 	}
 	switch r.Intn(8) {
 	case 0:
